@@ -70,6 +70,27 @@ def generate(tier, rng):
                     for v in e.variants:
                         for alt in (1, 2):
                             c.op(e.id, 'disc %s %d %d' % (hx(v.ident), alt, e.extra['evalflag']), 'disc/%s/%s' % (v.kind, lname))
+    # non-integer and compound reprs are copied verbatim as well (layout compared with a hand-written reference enum)
+    from ..spec import VSpec
+    # (`C, u8` on a data-carrying enum is not generated: the verbatim copy on the field-less mirror trips rustc's
+    #  conflicting_repr_hints lint - an observed quirk outside C09's repr list)
+    for raw in ('C', 'u8, align(4)', 'align(8)', 'C, align(16)'):
+        for unit_only in (True, False):
+            if unit_only and raw in ('C, u8', 'i16, C'):
+                continue  # rustc: conflicting representation hints on a field-less enum
+            lay = reprcorpus.layouts(None, 4)['implicit'] if not unit_only or 'u8' not in raw and 'i16' not in raw else reprcorpus.layouts('u8', 4)['gapped']
+            e = reprcorpus.make_enum('c09_%d' % k, 'EnC09x%d' % k, 4, None, 'raw:' + raw, lay, 'none', unit_only, ['EnumDiscriminants'], ['disc'])
+            if raw in ('C', 'C, align(16)', 'align(8)') and unit_only:
+                for i, v in enumerate(e.variants):
+                    v.discr = [3, None, 9, None][i]
+            e.extra['repr_raw'] = raw
+            e.extra['disc_asserts'] = []
+            e.extra['evalflag'] = 1 if unit_only else 0
+            e.extra['shape'] += ' disc_mode=raw'
+            k += 1
+            c.add(e)
+            for v in e.variants:
+                c.op(e.id, 'disc %s 1 %d' % (hx(v.ident), e.extra['evalflag']), 'disc/%s/raw-repr' % v.kind)
     return c
 
 
